@@ -345,7 +345,8 @@ class ExcelModel:
             except Exception as ex:  # Missing excel file or sheet.
                 log.warning('Error in loading `{}`:\n{}'.format(n_id, ex))
                 Cell(n_id, '=#REF!').compile().add(self.dsp)
-                self.books.pop(book, None)
+                if not self.books.get(book, {}).get(BOOK):  # Not loaded.
+                    self.books.pop(book, None)
                 continue
             formula_references = self.formula_references(context)
             if rng.get('anchor'):
